@@ -15,6 +15,7 @@
 -/
 import Depccg.Lazy
 import Depccg.Print.More
+import Depccg.Print.Json
 
 namespace Depccg
 namespace Cli
@@ -81,15 +82,23 @@ def scored (r : SentResult) : List (Tree × Str) :=
 inductive Fmt where
   | auto | autoExt | conll | ptb | deriv | ja
   | prologEn | prologJa          -- `--format prolog` under the English / Japanese program
+  | json
   deriving DecidableEq, Repr
 
 def Fmt.fn : Fmt → Tree → Except Err Str
   | .auto => autoOf | .autoExt => autoExtOf | .conll => conllOf | .ptb => ptbOf | .deriv => derivOf | .ja => jaOf
   | .prologEn => fun _ => .ok [] | .prologJa => fun _ => .ok []      -- (not record formats: see `printText`)
+  | .json => fun _ => .ok []
 
 /-- the trees of the results, for the formats that print no score -/
 def treesOnly (results : List SentResult) : List (List Tree) :=
   results.map fun r => (scored r).map fun (p : Tree × Str) => p.1
+
+/-- the trees with their scores as numbers, for `json` -/
+def scoredK (r : SentResult) : List (Tree × Option Int) :=
+  match r with
+  | .failed => [(placeholder, none)]
+  | .parsed ts => ts.map fun (t, k) => (t, some k)
 
 def addNewline (r : Except Err Str) : Except Err Str :=
   match r with
@@ -101,6 +110,7 @@ def printText (f : Fmt) (results : List SentResult) : Except Err Str :=
   match f with
   | .prologEn => addNewline (prologEn (treesOnly results))
   | .prologJa => addNewline (prologJa (treesOnly results))
+  | .json => .ok (jsonText (results.map scoredK) ++ [10])
   | f =>
     match toStringLines f.fn (f == Fmt.conll) (results.map scored) with
     | .error e => .error e
